@@ -10,3 +10,4 @@ import SoxrModel.Properties.C12Fir
 #print axioms Soxr.Properties.C12Engine.ufix_of_rows
 #print axioms Soxr.Properties.C12Engine.dc_gain_runs
 #print axioms Soxr.Cr.coneS_const
+#print axioms Soxr.Properties.C12Engine.planFix_of_rows
